@@ -55,6 +55,14 @@ type c03Generic struct {
 	SessionID *string `avp:"Session-Id"`
 }
 
+// c03Arrays: fixed-size array fields (a decoded value may be shorter or longer than the array).
+type c03Arrays struct {
+	IP16  [16]byte `avp:"Host-IP-Address"`
+	Host4 [4]byte  `avp:"Origin-Host"`
+	RC    [8]byte  `avp:"Result-Code"`
+	Class [2]byte  `avp:"Class"`
+}
+
 // inspect exercises every later inspection of a decoded message.
 func inspect(c *Config, m *diam.Message) {
 	_ = m.String()
@@ -69,6 +77,7 @@ func inspect(c *Config, m *diam.Message) {
 	_ = m.Unmarshal(new(smparser.DWR))
 	_ = m.Unmarshal(new(smparser.DWA))
 	_ = m.Unmarshal(new(c03Generic))
+	_ = m.Unmarshal(new(c03Arrays))
 	codes := []interface{}{264, uint32(268), "Origin-Host", "Result-Code", "Vendor-Specific-Application-Id", uint32(c.A.Undef[0]), "No-Such-AVP", uint32(260)}
 	for _, a := range m.AVP {
 		codes = append(codes, a.Code)
@@ -605,7 +614,7 @@ func c03Enum(ctx *ev.Ctx, fn func(*Config, C03Case)) string {
 			emit(c, "message", fmt.Sprintf("grouped AVP nested in itself %d deep", depth), nestedMessage(c, depth))
 		}
 	}
-	return "(0) every stream of <=3 pieces over {messages with 8 / 600 / 2036 / 5000-byte bodies, a bare header claiming 2056 bytes, headers claiming 620 / 3000 bytes followed by 10 / 1500} read message by message with the exported diam.MessageBufferLength set to one of {1024, 4096, 512} before each read; (i) every byte string of length <=1 and a lattice of length 2 (thorough: all) on every entry point; 20-byte headers with every declared length 0..2100 and 2^k-1, 2^k, 2^k+1 up to 2^24-1 x 4 commands x R bit, header only and with the body supplied; (ii) AVP shapes code {one per type, vendor variants, groups, undefined} x flags {0,0x20,0x40,0x80,0xC0,0xFF} x declared length 0..44 x bytes available 0..44 (quick: the neighbourhood of declared, multiples of 8) as DecodeAVP input, as message body and as group payload; (iii) every datatype decoder on payloads of 0..40 bytes x 4 fill patterns (address families 1, 257, 65535, 32897), the rendered text bounded by 32 x supplied + 256 bytes; (iv) every single structured corruption (each length field to 16 boundary values, every flag bit, code to undefined/0/2^31-1, truncation at every offset with and without a consistent header) of well-formed seeds covering every type and nesting, and every pair of corruptions on small seeds (thorough: triples on one seed); (v) a grouped AVP nested 1..1000 deep in-process with every inspection (String/PrettyDump are cubic in depth), 3000 deep with re-serialisation measured, and 6*10^4 (thorough) and 2*10^6 deep in child processes under an 8 GiB address-space cap. On everything that decodes: String, PrettyDump, Serialize, WriteTo, Unmarshal into CER/CEA/DWR/DWA and a generic struct, FindAVP/FindAVPs/FindAVPsWithPath by code and name. Distinct by (configuration, entry point, bytes)."
+	return "(0) every stream of <=3 pieces over {messages with 8 / 600 / 2036 / 5000-byte bodies, a bare header claiming 2056 bytes, headers claiming 620 / 3000 bytes followed by 10 / 1500} read message by message with the exported diam.MessageBufferLength set to one of {1024, 4096, 512} before each read; (i) every byte string of length <=1 and a lattice of length 2 (thorough: all) on every entry point; 20-byte headers with every declared length 0..2100 and 2^k-1, 2^k, 2^k+1 up to 2^24-1 x 4 commands x R bit, header only and with the body supplied; (ii) AVP shapes code {one per type, vendor variants, groups, undefined} x flags {0,0x20,0x40,0x80,0xC0,0xFF} x declared length 0..44 x bytes available 0..44 (quick: the neighbourhood of declared, multiples of 8) as DecodeAVP input, as message body and as group payload; (iii) every datatype decoder on payloads of 0..40 bytes x 4 fill patterns (address families 1, 257, 65535, 32897), the rendered text bounded by 32 x supplied + 256 bytes; (iv) every single structured corruption (each length field to 16 boundary values, every flag bit, code to undefined/0/2^31-1, truncation at every offset with and without a consistent header) of well-formed seeds covering every type and nesting, and every pair of corruptions on small seeds (thorough: triples on one seed); (v) a grouped AVP nested 1..1000 deep in-process with every inspection (String/PrettyDump are cubic in depth), 3000 deep with re-serialisation measured, and 6*10^4 (thorough) and 2*10^6 deep in child processes under an 8 GiB address-space cap. On everything that decodes: String, PrettyDump, Serialize, WriteTo, Unmarshal into CER/CEA/DWR/DWA, a generic struct and a struct of fixed-size byte arrays, FindAVP/FindAVPs/FindAVPsWithPath by code and name. Distinct by (configuration, entry point, bytes)."
 }
 
 func nestedMessage(c *Config, depth int) []byte {
